@@ -288,6 +288,35 @@ func runC02(c *core.Ctx) {
 			}
 		}
 	}
+	// every channel count up to 130 (arithmetic on the channel count that is
+	// exact only for small or special counts): a few ranges around the capacity
+	for ti, t := range dyn.ElemTypes() {
+		if ti%5 != 3 && t.Name != "float32" {
+			continue
+		}
+		for ch := 9; ch <= 130; ch++ {
+			gi++
+			if !c.Mine(gi) {
+				continue
+			}
+			for _, k := range []int{3, 4, 7} {
+				caseID := fmt.Sprintf("channels/%s/C%d/K%d", t.Name, ch, k)
+				if !c.Want(caseID) {
+					continue
+				}
+				w := mon.NewWorld(t)
+				b := t.Alloc(signal.Allocator{Channels: ch, Length: k - 1, Capacity: k})
+				stampAll(w, b)
+				root := w.Adopt(b, "root")
+				r := &c02run{c: c, t: t, w: w, inst: "Slice[" + t.Name + "]", caseID: caseID, depth: 2,
+					root: map[string]any{"channels": ch, "length": k - 1, "capacity": k}}
+				for _, se := range [][2]int{{0, k}, {1, k}, {k, k}, {k - 1, k}, {0, k + 1}, {1, k - 1}, {k + 1, k + 1}} {
+					r.try(root, se[0], se[1], "root", r.depth)
+				}
+				c.Obs("ranges_on_parents_with_9_to_130_channels", 7)
+			}
+		}
+	}
 	// tiny windows of very large parents (several hundred thousand samples):
 	// tails, and short windows in the middle with a long capacity behind them
 	for ti, t := range dyn.ElemTypes() {
